@@ -1,5 +1,6 @@
 import CasbinVerif.Model.Distributed
 import CasbinVerif.Properties.C10
+import CasbinVerif.Proofs.C19Enf
 /-
   C19 — Replicated self-operations are exact, idempotent and deterministic.
 
@@ -20,7 +21,15 @@ theorem add_affected_exact (e : Enf) (persist : Option Bool) (pt : String) (rule
     r.2.2 = false ∧
     (r.1.getStore "p" pt).map (·.policy) = some (s.policy ++ r.2.1) ∧
     r.2.1 = (rules.foldl SpecStore.addOne s.policy).drop s.policy.length := by
-  sorry
+  obtain ⟨X, hX⟩ := Enf.addPoliciesSelf_some persist rules hs hq
+  have g : Good n s := ⟨hc, hl⟩
+  obtain ⟨_, hp⟩ := addMany_spec hn rules g hr
+  have haff := addMany_affected hn rules g hr
+  rw [Enf.addTail_p, hprio] at hX
+  simp only [hX]
+  refine ⟨trivial, ?_, ?_⟩
+  · rw [Enf.getStore_setAdapter, Enf.getStore_setStore_p, Option.map_some, haff]
+  · rw [← hp, haff, List.drop_left]
 
 /-- RemovePoliciesSelf reports as affected exactly the rules it removed -/
 theorem remove_affected_exact (e : Enf) (persist : Option Bool) (pt : String) (rules : List Rule) (s : Store)
@@ -31,7 +40,15 @@ theorem remove_affected_exact (e : Enf) (persist : Option Bool) (pt : String) (r
     r.2.2 = false ∧
     (r.1.getStore "p" pt).map (·.policy) = some (rules.foldl List.erase s.policy) ∧
     r.2.1 = rules.eraseDups.filter (· ∈ s.policy) := by
-  sorry
+  obtain ⟨X, hX⟩ := Enf.removePoliciesSelf_quiet e persist "p" pt rules hq
+  have g : Good n s := ⟨hc, hl⟩
+  obtain ⟨_, hp, _⟩ := removeMany_spec hn rules g hr
+  have haff := removeMany_affected hn rules g hr
+  rw [Enf.removeTail_p e pt rules hs] at hX
+  simp only [hX]
+  refine ⟨trivial, ?_, ?_⟩
+  · rw [Enf.getStore_setAdapter, Enf.getStore_setStore_p, Option.map_some, hp]
+  · rw [haff, specRemoved_eq hc.1]
 
 /-- applying the same addition a second time changes nothing and reports nothing -/
 theorem add_idempotent (e : Enf) (persist : Option Bool) (pt : String) (rules : List Rule) (s : Store)
@@ -41,7 +58,19 @@ theorem add_idempotent (e : Enf) (persist : Option Bool) (pt : String) (rules : 
     let e₁ := (e.addPoliciesSelf persist "p" pt rules).1
     let r₂ := e₁.addPoliciesSelf none "p" pt rules
     r₂.2.1 = [] ∧ r₂.1.memory = e₁.memory := by
-  sorry
+  obtain ⟨X, hX⟩ := Enf.addPoliciesSelf_some persist rules hs hq
+  have g : Good n s := ⟨hc, hl⟩
+  obtain ⟨g', hp⟩ := addMany_spec hn rules g hr
+  rw [Enf.addTail_p, hprio] at hX
+  have hall : ∀ r ∈ rules, (s.addMany none rules).1.has r = true := fun r hrr =>
+    (g'.has_iff hn (hr r hrr)).2 (hp ▸ mem_foldl_addOne_of_mem rules s.policy hrr)
+  have hs₁ : ((e.setStore "p" pt (s.addMany none rules).1).setAdapter X).getStore "p" pt =
+      some (s.addMany none rules).1 := by
+    rw [Enf.getStore_setAdapter, Enf.getStore_setStore_p]
+  simp only [hX]
+  rw [Enf.addPoliciesSelf_noPersist rules rfl hs₁, Enf.addTail_p, addMany_all_has _ _ _ hall]
+  refine ⟨rfl, ?_⟩
+  rw [Enf.setStore_setAdapter, Enf.memory_setAdapter, Enf.memory_setAdapter, Enf.memory_setStore_p_twice]
 
 /-- … and the same removal -/
 theorem remove_idempotent (e : Enf) (persist : Option Bool) (pt : String) (rules : List Rule) (s : Store)
@@ -51,7 +80,26 @@ theorem remove_idempotent (e : Enf) (persist : Option Bool) (pt : String) (rules
     let e₁ := (e.removePoliciesSelf persist "p" pt rules).1
     let r₂ := e₁.removePoliciesSelf none "p" pt rules
     r₂.2.1 = [] ∧ r₂.1.memory = e₁.memory := by
-  sorry
+  obtain ⟨X, hX⟩ := Enf.removePoliciesSelf_quiet e persist "p" pt rules hq
+  have g : Good n s := ⟨hc, hl⟩
+  obtain ⟨g', hp, _⟩ := removeMany_spec hn rules g hr
+  rw [Enf.removeTail_p e pt rules hs] at hX
+  have hnone : ∀ r ∈ rules, (s.removeMany rules).1.has r = false := by
+    intro r hrr
+    cases hh : (s.removeMany rules).1.has r with
+    | false => rfl
+    | true =>
+      have := (g'.has_iff hn (hr r hrr)).1 hh
+      rw [hp] at this
+      exact absurd this (not_mem_foldl_erase hc.1 rules hrr)
+  have hs₁ : ((e.setStore "p" pt (s.removeMany rules).1).setAdapter X).getStore "p" pt =
+      some (s.removeMany rules).1 := by
+    rw [Enf.getStore_setAdapter, Enf.getStore_setStore_p]
+  simp only [hX]
+  rw [Enf.removePoliciesSelf_noPersist "p" pt rules rfl, Enf.removeTail_p _ pt rules hs₁,
+    removeMany_none_has _ _ hnone]
+  refine ⟨rfl, ?_⟩
+  rw [Enf.setStore_setAdapter, Enf.memory_setAdapter, Enf.memory_setAdapter, Enf.memory_setStore_p_twice]
 
 /-- the storage adapter is touched only when the caller's persist predicate says so -/
 theorem persist_iff_predicate (e : Enf) (persist : Option Bool) (sec pt : String) (rules : List Rule) (old new : Rule)
@@ -62,14 +110,21 @@ theorem persist_iff_predicate (e : Enf) (persist : Option Bool) (sec pt : String
     (e.updatePoliciesSelf persist sec pt rules rules).1.adapter = e.adapter ∧
     (e.clearPolicySelf persist).1.adapter = e.adapter ∧
     (∀ r, e.removeFilteredPolicySelf persist sec pt fi vals = some r → r.1.adapter = e.adapter) := by
-  sorry
+  exact ⟨Enf.sameAd_addPoliciesSelf e persist sec pt rules hp,
+    Enf.sameAd_removePoliciesSelf e persist sec pt rules hp,
+    Enf.sameAd_updatePolicySelf e persist sec pt old new hp,
+    Enf.sameAd_updatePoliciesSelf e persist sec pt rules rules hp,
+    Enf.sameAd_clearPolicySelf e persist hp,
+    fun r h => Enf.sameAd_removeFilteredPolicySelf e persist sec pt fi vals hp r h⟩
 
 /-- a persisting replica calls its adapter exactly once per operation -/
 theorem persist_calls_once (e : Enf) (sec pt : String) (rules : List Rule) (a : AdapterSt) (ha : e.adapter = some a)
     (s : Store) (hs : e.getStore sec pt = some s) :
     ∃ a', (e.addPoliciesSelf (some true) sec pt rules).1.adapter = some a' ∧ a'.calls = a.calls + 1 ∧
     ∃ a'', (e.removePoliciesSelf (some true) sec pt rules).1.adapter = some a'' ∧ a''.calls = a.calls + 1 := by
-  sorry
+  obtain ⟨a', h1, h2⟩ := Enf.calls_addPoliciesSelf rules ha hs
+  obtain ⟨a'', h3, h4⟩ := Enf.calls_removePoliciesSelf sec pt rules ha
+  exact ⟨a', h1, h2, a'', h3, h4⟩
 
 /-- Self operations never notify a watcher -/
 theorem self_silent (e : Enf) (persist : Option Bool) (sec pt : String) (rules : List Rule) (old new : Rule) :
@@ -78,7 +133,11 @@ theorem self_silent (e : Enf) (persist : Option Bool) (sec pt : String) (rules :
     (e.updatePolicySelf persist sec pt old new).1.notif = e.notif ∧
     (e.updatePoliciesSelf persist sec pt rules rules).1.notif = e.notif ∧
     (e.clearPolicySelf persist).1.notif = e.notif := by
-  sorry
+  exact ⟨(Enf.sameAux_addPoliciesSelf e persist sec pt rules).notif,
+    (Enf.sameAux_removePoliciesSelf e persist sec pt rules).notif,
+    (Enf.sameAux_updatePolicySelf e persist sec pt old new).notif,
+    (Enf.sameAux_updatePoliciesSelf e persist sec pt rules rules).notif,
+    (Enf.sameAux_clearPolicySelf e persist).notif⟩
 
 /-- replicas converge: the persist predicate does not influence rules, links or what is reported -/
 theorem predicate_irrelevant_to_memory (e : Enf) (p₁ p₂ : Option Bool) (sec pt : String) (rules : List Rule)
@@ -87,6 +146,16 @@ theorem predicate_irrelevant_to_memory (e : Enf) (p₁ p₂ : Option Bool) (sec 
     (e.addPoliciesSelf p₁ sec pt rules).2 = (e.addPoliciesSelf p₂ sec pt rules).2 ∧
     (e.removePoliciesSelf p₁ sec pt rules).1.memory = (e.removePoliciesSelf p₂ sec pt rules).1.memory ∧
     (e.removePoliciesSelf p₁ sec pt rules).2 = (e.removePoliciesSelf p₂ sec pt rules).2 := by
-  sorry
+  obtain ⟨Y₁, hY₁⟩ := Enf.removePoliciesSelf_quiet e p₁ sec pt rules hq
+  obtain ⟨Y₂, hY₂⟩ := Enf.removePoliciesSelf_quiet e p₂ sec pt rules hq
+  cases hs : e.getStore sec pt with
+  | none =>
+    rw [Enf.addPoliciesSelf_none_store p₁ rules hs, Enf.addPoliciesSelf_none_store p₂ rules hs, hY₁, hY₂]
+    exact ⟨rfl, rfl, rfl, rfl⟩
+  | some s =>
+    obtain ⟨X₁, hX₁⟩ := Enf.addPoliciesSelf_some p₁ rules hs hq
+    obtain ⟨X₂, hX₂⟩ := Enf.addPoliciesSelf_some p₂ rules hs hq
+    rw [hX₁, hX₂, hY₁, hY₂]
+    exact ⟨rfl, rfl, rfl, rfl⟩
 
 end Casbin.C19
